@@ -539,7 +539,7 @@ func init() {
 	vfXModels["c11"] = &vfXModel{Name: "c11", NumOps: len(vfC11Ops), OpName: func(i int) string { return vfC11Ops[i].Name },
 		Exec: vfC11Exec, MaxDepth: func(th bool) int {
 			if th {
-				return 6
+				return 9
 			}
 			return 5
 		}}
